@@ -187,6 +187,7 @@ var syncCounter int64
 // A watchdog kills a solver that ignores its own time limit; the session is then
 // restarted and brought back to the current path state, and the query counts as unknown.
 func (s *Session) roundtrip(c string) []string {
+	tStart := time.Now()
 	n := atomic.AddInt64(&syncCounter, 1)
 	marker := fmt.Sprintf("<<sync-%d>>", n)
 	s.raw(c)
@@ -227,6 +228,7 @@ func (s *Session) roundtrip(c string) []string {
 		for _, l := range lines {
 			fmt.Fprintln(s.log, "; -> "+l)
 		}
+		fmt.Fprintf(s.log, "; took %d ms\n", time.Since(tStart).Milliseconds())
 	}
 	return lines
 }
